@@ -103,7 +103,11 @@ def judge (req ans : List String) : Option Complaints :=
       let extra ← (match a, rest with
         | .ok _, [p] => (unhex p).map (judgeReprint txt)
         | _, _ => some [])
-      pure (judgeParse T txt a ++ extra ++ judgeGrammarReject txt false a)
+      -- BigBitstring has no largest width: for it "accepts exactly the grammar" (C06) has no overflow exception, so the
+      -- C07 complaint about a rejected grammatical numeral is a C06 complaint as well
+      let big6 := if (judgeParse T txt a).any (fun c => c.1 == "C07" && c.2 == "BigBitstring rejected a grammatical numeral")
+                  then [("C06", "BigBitstring rejected a string of the grammar")] else []
+      pure (judgeParse T txt a ++ extra ++ judgeGrammarReject txt false a ++ big6)
   | ["parse_fmt", t, cap, frs, fault], [a] => do
       let T ← Ty.ofName t; let frs ← parseFrags frs; let a ← parsePAns a
       pure (judgeParseFmt T (parseCap cap) frs fault a ++
